@@ -2,12 +2,13 @@
 //! convert_expr_to_predicate) vs the model's `convert` on the same expression
 //! tree.  The harness prints a generated expression tree as fully
 //! parenthesised SQL over the columns of the default `metrics` table.
+use crate::eval;
 use crate::types::*;
 use cardinalsin::query::{CacheConfig, QueryEngine, TieredCache};
 use cardinalsin::StorageConfig;
 use csv_common::{Model, Report, Rng};
 use object_store::memory::InMemory;
-use serde_json::json;
+use serde_json::{json, Value};
 use std::sync::Arc;
 
 #[derive(Clone, Debug)]
@@ -208,24 +209,172 @@ pub struct COut {
     pub model_out: String,
     pub differs: bool,
     pub plan_error: bool,
+    /// the extracted predicates prune the generated chunk
+    pub pruned: bool,
+    /// rows of a pruned chunk (within its statistics) that DataFusion returns for the WHERE clause; known class?
+    pub bad_rows: Vec<(usize, bool)>,
+    pub engine_error: bool,
 }
 
-pub fn check_c(rt: &tokio::runtime::Runtime, eng: &Engine, e: &E, model: &mut Model) -> COut {
+/// one leg-C case: the WHERE expression and a chunk (rows + statistics)
+#[derive(Clone)]
+pub struct CCase {
+    pub e: E,
+    pub rows: Vec<Row>,
+    pub stats: Vec<Stat>,
+}
+
+impl CCase {
+    pub fn json(&self) -> Value {
+        json!({"leg": "C", "expr": show_expr(&self.e), "sql": to_sql(&self.e), "rows": show_rows(&self.rows), "stats": show_stats(&self.stats)})
+    }
+    pub fn parse(v: &Value) -> CCase {
+        CCase {
+            e: parse_expr(&mut Toks::new(v["expr"].as_str().expect("expr"))),
+            rows: v["rows"].as_str().map(|t| parse_rows(&mut Toks::new(t))).unwrap_or_default(),
+            stats: v["stats"].as_str().map(|t| parse_stats(&mut Toks::new(t))).unwrap_or_default(),
+        }
+    }
+}
+
+pub fn check_c(rt: &tokio::runtime::Runtime, eng: &Engine, c: &CCase, model: &mut Model) -> COut {
+    let e = &c.e;
     let sql = format!("SELECT * FROM metrics WHERE {}", to_sql(e));
     let r = rt.block_on(eng.engine.extract_column_predicates(&sql));
+    let mut pruned = false;
+    let mut preds: Vec<Pred> = Vec::new();
     let (impl_out, plan_error) = match r {
         Ok(ps) if ps.is_empty() => ("NONE".to_string(), false),
-        Ok(ps) => (ps.iter().map(|p| show_pred(&from_impl(p))).collect::<Vec<_>>().join(" && "), false),
+        Ok(ps) => {
+            // the gate of get_chunks_with_predicates on the generated chunk's statistics
+            let st = to_impl_stats(&c.stats);
+            pruned = !ps.iter().all(|p| p.evaluate_against_stats(&st));
+            preds = ps.iter().map(from_impl).collect();
+            (preds.iter().map(show_pred).collect::<Vec<_>>().join(" && "), false)
+        }
         Err(err) => (format!("ERR {}", err).chars().take(200).collect(), true),
     };
     let answer = model.ask(&model_line(e));
     let model_out = answer.split(" ; ").next().unwrap_or("").to_string();
     let differs = !model.is_null() && !plan_error && impl_out != model_out;
-    COut { impl_out, model_out, differs, plan_error }
+    // oracle: a pruned chunk holds no row that the engine returns for the WHERE clause
+    let mut bad_rows = Vec::new();
+    let mut engine_error = false;
+    if pruned && !c.rows.is_empty() {
+        match crate::df::eval_where(rt, &to_sql(e), &c.rows) {
+            Ok(ids) => {
+                for i in ids {
+                    if i < c.rows.len() && eval::in_stats(&c.rows[i], &c.stats) {
+                        let known = preds.iter().any(|p| eval::known_mixed(p, &c.stats, &c.rows[i]));
+                        bad_rows.push((i, known));
+                    }
+                }
+            }
+            Err(_) => engine_error = true,
+        }
+    }
+    COut { impl_out, model_out, differs, plan_error, pruned, bad_rows, engine_error }
 }
 
 const STR_LITS: [&str; 7] = ["a", "cpu", "", "é", "it's", "10", "z"];
 const BOOL_OTHERS: [&str; 3] = ["host IS NULL", "host LIKE 'a%'", "value_i64 IS NOT NULL"];
+/// boolean operands that have no pushdown form: arithmetic, function calls,
+/// column = column, comparisons of the time column
+const NONCONV: [&str; 9] = [
+    "value_f64 * 2 > 1",
+    "abs(value_f64) > 0.5",
+    "host = service",
+    "value_i64 + 1 > 3",
+    "timestamp >= to_timestamp_nanos(5)",
+    "timestamp < to_timestamp_nanos(7)",
+    "value_u64 > value_i64",
+    "host LIKE 'a%'",
+    "value_i64 IS NOT NULL",
+];
+const ROW_I64: [i64; 7] = [0, 5, -5, 10, 20, 9007199254740993, 3];
+const ROW_F64: [f64; 7] = [1.5, 2.0, -2.5, 0.5, 100.0, 9007199254740992.0, 1e300];
+const ROW_U64: [u64; 5] = [0, 5, 10, u64::MAX, 7];
+const ROW_TS: [i64; 4] = [0, 5, 10, 1_000_000_000];
+
+/// a convertible comparison whose literal comes from the pools the rows use
+fn gen_conv_atom(rng: &mut Rng) -> E {
+    let o = *rng.pick(&[Bop::Eq, Bop::Lt, Bop::Le, Bop::Gt, Bop::Ge, Bop::Eq]);
+    let (c, l) = match rng.below(4) {
+        0 => (2usize, Sc::I64(*rng.pick(&ROW_I64) + rng.range_i64(-1, 1))),
+        1 => (3, Sc::F64((*rng.pick(&ROW_F64) + rng.range_i64(-1, 1) as f64).to_bits())),
+        2 => (*rng.pick(&[5usize, 6, 7]), Sc::Utf8(rng.pick(&STR_LITS).to_string())),
+        _ => (7, Sc::Utf8("zzz".into())),
+    };
+    E::Bin(Box::new(E::Col(c)), o, Box::new(E::Lit(l)))
+}
+
+/// AND / OR with exactly one operand that has no pushdown form
+fn gen_one_sided(rng: &mut Rng, report: &mut Report) -> E {
+    let conv = if rng.chance(1, 4) {
+        E::Bin(Box::new(gen_conv_atom(rng)), *rng.pick(&[Bop::And, Bop::Or]), Box::new(gen_conv_atom(rng)))
+    } else {
+        gen_conv_atom(rng)
+    };
+    let non = if rng.chance(1, 6) {
+        E::Bin(Box::new(E::Col(0)), *rng.pick(&[Bop::Ge, Bop::Lt]), Box::new(E::Other("to_timestamp_nanos(5)".into())))
+    } else {
+        E::Other(rng.pick(&NONCONV).to_string())
+    };
+    let op = if rng.chance(3, 5) { Bop::Or } else { Bop::And };
+    report.bump(if op == Bop::Or { "C.or_with_one_unconvertible_operand" } else { "C.and_with_one_unconvertible_operand" });
+    if rng.chance(1, 2) {
+        E::Bin(Box::new(conv), op, Box::new(non))
+    } else {
+        E::Bin(Box::new(non), op, Box::new(conv))
+    }
+}
+
+pub fn gen_chunk(rng: &mut Rng) -> (Vec<Row>, Vec<Stat>) {
+    let n = rng.range_usize(1, 4);
+    let mut rows: Vec<Row> = Vec::new();
+    for _ in 0..n {
+        let mut r: Row = vec![(0, V::Int(*rng.pick(&ROW_TS) as i128))];
+        let null = |rng: &mut Rng| rng.chance(1, 12);
+        r.push((2, if null(rng) { V::Null } else { V::Int(*rng.pick(&ROW_I64) as i128) }));
+        r.push((3, if null(rng) { V::Null } else { V::Float(rng.pick(&ROW_F64).to_bits()) }));
+        r.push((4, if null(rng) { V::Null } else { V::Int(*rng.pick(&ROW_U64) as i128) }));
+        r.push((5, if null(rng) { V::Null } else { V::Str(rng.pick(&STR_LITS).to_string()) }));
+        r.push((6, if null(rng) { V::Null } else { V::Str(rng.pick(&STR_LITS).to_string()) }));
+        r.push((7, V::Str(rng.pick(&["cpu", "memory", "a"]).to_string())));
+        rows.push(r);
+    }
+    // statistics = true min / max per column (some columns without statistics)
+    let mut stats = Vec::new();
+    for c in [2usize, 3, 4, 5, 6, 7] {
+        if rng.chance(1, 5) {
+            continue;
+        }
+        let vals: Vec<V> = rows.iter().map(|r| eval::rget(c, r)).filter(|v| *v != V::Null).collect();
+        if vals.is_empty() {
+            continue;
+        }
+        let mut lo = vals[0].clone();
+        let mut hi = vals[0].clone();
+        for v in &vals {
+            if matches!(eval::compare(v, &lo), eval::Cmp::Ord(std::cmp::Ordering::Less)) {
+                lo = v.clone();
+            }
+            if matches!(eval::compare(v, &hi), eval::Cmp::Ord(std::cmp::Ordering::Greater)) {
+                hi = v.clone();
+            }
+        }
+        let j = |v: &V| match v {
+            V::Int(i) if *i < 0 => Value::from(*i as i64),
+            V::Int(i) => Value::from(*i as u64),
+            V::Float(b) => float_json(f64::from_bits(*b)),
+            V::Str(s) => Value::String(s.clone()),
+            _ => Value::Null,
+        };
+        stats.push(Stat { col: c, min: j(&lo), max: j(&hi), has_nulls: vals.len() < rows.len() });
+    }
+    (rows, stats)
+}
+
 const VAL_OTHERS: [&str; 3] = ["abs(value_i64)", "(value_i64 + 1)", "CAST(value_f64 AS BIGINT)"];
 const SQL_COLS: [usize; 8] = [2, 3, 4, 5, 6, 7, 2, 3];
 
@@ -266,6 +415,14 @@ fn gen_operand(rng: &mut Rng, report: &mut Report) -> E {
 }
 
 pub fn gen_expr(rng: &mut Rng, depth: u32, report: &mut Report) -> E {
+    if depth > 0 && rng.chance(1, 3) {
+        let x = gen_one_sided(rng, report);
+        return if depth > 1 && rng.chance(1, 3) {
+            E::Bin(Box::new(x), *rng.pick(&[Bop::And, Bop::Or]), Box::new(gen_expr(rng, depth - 1, report)))
+        } else {
+            x
+        };
+    }
     let r = rng.below(100);
     if depth > 0 && r < 50 {
         let a = gen_expr(rng, depth - 1, report);
@@ -321,6 +478,12 @@ fn corpus() -> Vec<E> {
         "bin and col 5 lit b:1",
         "not bin gt col 2 lit i64:5",
         "bin and bin gt col 2 lit i64:1 oth:686f7374204c494b452027612527",
+        // OR with one operand that has no pushdown form must not be converted at all
+        "bin or bin eq col 7 lit u:7a7a7a oth:76616c75655f663634202a2032203e2031",
+        "bin or oth:616273282076616c75655f66363429203e20302e35 bin eq col 7 lit u:7a7a7a",
+        "bin or bin eq col 7 lit u:7a7a7a oth:686f7374203d2073657276696365",
+        "bin or bin eq col 7 lit u:7a7a7a bin ge col 0 oth:746f5f74696d657374616d705f6e616e6f73283529",
+        "bin and bin eq col 7 lit u:7a7a7a oth:76616c75655f663634202a2032203e2031",
     ]
     .iter()
     .map(|t| parse_expr(&mut Toks::new(t)))
@@ -329,32 +492,72 @@ fn corpus() -> Vec<E> {
 
 pub fn run_c(rt: &tokio::runtime::Runtime, rng: &mut Rng, n: usize, model: &mut Model, report: &mut Report) {
     let eng = Engine::new(rt);
-    let mut cases = corpus();
+    let mut cases: Vec<CCase> = Vec::new();
+    for (i, e) in corpus().into_iter().enumerate() {
+        // a fixed chunk for the corpus: one row that satisfies the unconvertible operands
+        let rows: Vec<Row> = vec![vec![
+            (0, V::Int(10)),
+            (2, V::Int(5 + i as i128 % 2)),
+            (3, V::Float(2.0f64.to_bits())),
+            (4, V::Int(7)),
+            (5, V::Str("a".into())),
+            (6, V::Str("a".into())),
+            (7, V::Str("cpu".into())),
+        ]];
+        let stats = vec![
+            Stat { col: 7, min: Value::String("cpu".into()), max: Value::String("cpu".into()), has_nulls: false },
+            Stat { col: 2, min: Value::from(5), max: Value::from(6), has_nulls: false },
+        ];
+        cases.push(CCase { e, rows, stats });
+    }
     for _ in 0..n {
         let mut r = rng.fork();
-        let d = *r.pick(&[0u32, 0, 1, 1, 2, 3]);
-        cases.push(gen_expr(&mut r, d, report));
+        let d = *r.pick(&[0u32, 1, 1, 1, 2, 3]);
+        let e = gen_expr(&mut r, d, report);
+        let (rows, stats) = gen_chunk(&mut r);
+        cases.push(CCase { e, rows, stats });
     }
-    for e in cases {
-        let o = check_c(rt, &eng, &e, model);
+    for c in cases {
+        let o = check_c(rt, &eng, &c, model);
         report.impl_runs += 1;
-        let text = show_expr(&e);
+        let text = show_expr(&c.e);
         if o.plan_error {
             report.bump("C.plan_error_skipped");
             report.case(None);
             continue;
         }
         report.bump(if o.impl_out == "NONE" { "C.not_converted" } else { "C.converted" });
+        if o.pruned {
+            report.bump("C.chunk_pruned_checked_with_datafusion");
+        }
+        if o.engine_error {
+            report.bump("C.engine_error_oracle_skipped");
+        }
         report.case(if o.impl_out != "NONE" { Some(&text) } else { None });
         if report.samples.len() < 6 && o.impl_out != "NONE" {
-            report.samples.push(json!({"leg": "C", "sql": to_sql(&e), "impl": o.impl_out, "model": o.model_out}));
+            report.samples.push(json!({"leg": "C", "sql": to_sql(&c.e), "impl": o.impl_out, "model": o.model_out}));
         }
         if o.differs {
             report.disagreement(json!({
                 "correspondence": "QueryEngine::extract_column_predicates (convert_expr_to_predicate) vs Model/StatsPrune.v convert",
-                "case": {"leg": "C", "expr": text, "sql": to_sql(&e)}, "impl": o.impl_out, "model": o.model_out, "shrunk": text,
-                "oracle_failed": false,
+                "case": c.json(), "impl": o.impl_out, "model": o.model_out, "shrunk": text,
+                "oracle_failed": !o.bad_rows.is_empty(),
             }));
+        }
+        if !o.bad_rows.is_empty() {
+            let all_known = o.bad_rows.iter().all(|(_, k)| *k);
+            let (i, _) = o.bad_rows[0];
+            report.bump(if all_known { "C.oracle.known_class" } else { "C.oracle.violation" });
+            report.oracle_violation(
+                if all_known { crate::KNOWN_CLASS } else { "" },
+                &format!(
+                    "the predicates extracted from `WHERE {}` ({}) prune a chunk although DataFusion returns its row {:?}, which lies within the statistics",
+                    to_sql(&c.e),
+                    o.impl_out,
+                    c.rows[i].iter().map(|(k, v)| format!("{}={}", cname(*k), show_v(v))).collect::<Vec<_>>()
+                ),
+                c.json(),
+            );
         }
     }
 }
